@@ -1,3 +1,193 @@
+//! frame (C25): the repository's own `Message`/`MessageStream` (private items of src/dummy.rs, compiled from the real file)
+//! driven over an in-memory stream that serves reads in arbitrary chunk sizes; repl (C25): DummyVM::eval histories.
+#![allow(dead_code, unused_imports, clippy::all)]
 use serde_json::{json, Value};
-pub fn frame(_req: Value) -> Value { json!({"harness_error": "not implemented"}) }
-pub fn repl(_req: Value) -> Value { json!({"harness_error": "not implemented"}) }
+
+use crate::guarded;
+
+mod real_dummy {
+    include!(concat!(env!("VERIF_REPO"), "/src/dummy.rs"));
+
+    /// In-memory duplex: everything written is appended to `data`; reads return at most the next chunk size.
+    pub struct Chunked {
+        pub data: Vec<u8>,
+        pub pos: usize,
+        pub chunks: Vec<usize>,
+        pub next: usize,
+        pub reads: usize,
+    }
+
+    impl Read for Chunked {
+        fn read(&mut self, buf: &mut [u8]) -> std::io::Result<usize> {
+            if self.pos >= self.data.len() || buf.is_empty() {
+                return Ok(0);
+            }
+            let c = if self.chunks.is_empty() { usize::MAX } else { self.chunks[self.next % self.chunks.len()].max(1) };
+            self.next += 1;
+            self.reads += 1;
+            let n = buf.len().min(c).min(self.data.len() - self.pos);
+            buf[..n].copy_from_slice(&self.data[self.pos..self.pos + n]);
+            self.pos += n;
+            Ok(n)
+        }
+    }
+
+    impl Write for Chunked {
+        fn write(&mut self, buf: &[u8]) -> std::io::Result<usize> {
+            self.data.extend_from_slice(buf);
+            Ok(buf.len())
+        }
+        fn flush(&mut self) -> std::io::Result<()> {
+            Ok(())
+        }
+    }
+
+    /// msgs: (inst byte, payload); returns the wire bytes and what recv_msg decodes under the chunking.
+    pub fn roundtrip(msgs: Vec<(u8, Vec<u8>)>, chunks: Vec<usize>) -> (usize, Vec<Result<(u8, usize, Vec<u8>), String>>) {
+        let inner = Chunked { data: vec![], pos: 0, chunks, next: 0, reads: 0 };
+        let mut stream = MessageStream::new(inner);
+        let n = msgs.len();
+        for (inst, payload) in msgs {
+            let data = if payload.is_empty() { None } else { Some(payload) };
+            let m = Message::new(Inst::from(inst), data);
+            stream.send_msg(&m).unwrap();
+        }
+        let wire = stream.stream.data.len();
+        let mut out = vec![];
+        for _ in 0..n {
+            match stream.recv_msg() {
+                Ok(m) => out.push(Ok((m.inst as u8, m.size as usize, m.data.unwrap_or_default()))),
+                Err(e) => {
+                    out.push(Err(format!("{:?}", e.kind())));
+                    break;
+                }
+            }
+        }
+        (wire, out)
+    }
+
+    /// decode a given wire image (produced by the reference encoder) with the real recv_msg
+    pub fn decode(wire: Vec<u8>, chunks: Vec<usize>, n: usize) -> Vec<Result<(u8, usize, Vec<u8>), String>> {
+        let inner = Chunked { data: wire, pos: 0, chunks, next: 0, reads: 0 };
+        let mut stream = MessageStream::new(inner);
+        let mut out = vec![];
+        for _ in 0..n {
+            match stream.recv_msg() {
+                Ok(m) => out.push(Ok((m.inst as u8, m.size as usize, m.data.unwrap_or_default()))),
+                Err(e) => {
+                    out.push(Err(format!("{:?}", e.kind())));
+                    break;
+                }
+            }
+        }
+        out
+    }
+
+    /// encode messages with the real send_msg, return the wire image
+    pub fn encode(msgs: Vec<(u8, Vec<u8>)>) -> Vec<u8> {
+        let inner = Chunked { data: vec![], pos: 0, chunks: vec![], next: 0, reads: 0 };
+        let mut stream = MessageStream::new(inner);
+        for (inst, payload) in msgs {
+            let data = if payload.is_empty() { None } else { Some(payload) };
+            stream.send_msg(&Message::new(Inst::from(inst), data)).unwrap();
+        }
+        stream.stream.data
+    }
+
+    pub fn new_repl_vm(name: &str) -> DummyVM {
+        use erg_common::io::{DummyStdin, Input};
+        let cfg = ErgConfig {
+            input: Input::dummy_repl(DummyStdin::new(name.to_string(), vec![])),
+            quiet_repl: true,
+            ..Default::default()
+        };
+        DummyVM::new(cfg)
+    }
+
+    pub fn vm_eval(vm: &mut DummyVM, src: String) -> Result<String, String> {
+        match <DummyVM as Runnable>::eval(vm, src) {
+            Ok(s) => Ok(s),
+            Err(errs) => Err(format!("{} compile error(s): {}", errs.len(), errs.iter().map(|e| e.core.main_message.clone()).collect::<Vec<_>>().join(" | "))),
+        }
+    }
+}
+
+fn payload(id: u64, len: usize) -> Vec<u8> {
+    // unique, self-describing payload: "<id>:" then a repeating pattern derived from the id
+    let mut v = format!("{id}:").into_bytes();
+    let mut x = id.wrapping_mul(0x9E3779B97F4A7C15) | 1;
+    while v.len() < len {
+        x ^= x << 13;
+        x ^= x >> 7;
+        x ^= x << 17;
+        v.push(b'a' + (x % 26) as u8);
+    }
+    v.truncate(len);
+    v
+}
+
+fn summarize(r: &Result<(u8, usize, Vec<u8>), String>) -> Value {
+    match r {
+        Ok((inst, size, data)) => {
+            let head: String = String::from_utf8_lossy(&data[..data.len().min(24)]).to_string();
+            let mut h: u64 = 0xcbf29ce484222325;
+            for b in data {
+                h ^= *b as u64;
+                h = h.wrapping_mul(0x100000001b3);
+            }
+            json!({"inst": inst, "size": size, "len": data.len(), "head": head, "fnv": format!("{h:016x}")})
+        }
+        Err(e) => json!({"err": e}),
+    }
+}
+
+/// {"mode": "roundtrip", "msgs": [[inst, id, len], ...], "chunks": [..]}
+/// {"mode": "decode", "wire_hex": "...", "chunks": [..], "n": k}      (wire produced by the monitor's reference encoder)
+/// {"mode": "encode", "msgs": [[inst, id, len], ...]}               -> wire_hex
+pub fn frame(req: Value) -> Value {
+    guarded(move || {
+        let chunks: Vec<usize> = req["chunks"].as_array().map(|a| a.iter().map(|v| v.as_u64().unwrap() as usize).collect()).unwrap_or_default();
+        let msgs = |req: &Value| -> Vec<(u8, Vec<u8>)> {
+            req["msgs"].as_array().unwrap().iter().map(|m| {
+                let inst = m[0].as_u64().unwrap() as u8;
+                (inst, payload(m[1].as_u64().unwrap(), m[2].as_u64().unwrap() as usize))
+            }).collect()
+        };
+        match req["mode"].as_str().unwrap_or("roundtrip") {
+            "roundtrip" => {
+                let (wire, out) = real_dummy::roundtrip(msgs(&req), chunks);
+                json!({"wire_len": wire, "recv": out.iter().map(summarize).collect::<Vec<_>>()})
+            }
+            "decode" => {
+                let hex = req["wire_hex"].as_str().unwrap();
+                let wire: Vec<u8> = (0..hex.len() / 2).map(|i| u8::from_str_radix(&hex[2 * i..2 * i + 2], 16).unwrap()).collect();
+                let out = real_dummy::decode(wire, chunks, req["n"].as_u64().unwrap() as usize);
+                json!({"recv": out.iter().map(summarize).collect::<Vec<_>>()})
+            }
+            "encode" => {
+                let wire = real_dummy::encode(msgs(&req));
+                let hex: String = wire.iter().map(|b| format!("{b:02x}")).collect();
+                json!({"wire_hex": hex})
+            }
+            other => json!({"harness_error": format!("unknown mode {other}")}),
+        }
+    })
+}
+
+/// {"inputs": ["src1", "src2", ...]} -> {"results": [{"ok": "..."} | {"err": "..."}]}   (one fresh VM + server per request)
+pub fn repl(req: Value) -> Value {
+    guarded(move || {
+        let name = format!("vh_repl_{}", std::process::id());
+        let mut vm = real_dummy::new_repl_vm(&name);
+        let mut results = vec![];
+        for inp in req["inputs"].as_array().unwrap() {
+            let src = inp.as_str().unwrap().to_string();
+            match real_dummy::vm_eval(&mut vm, src) {
+                Ok(s) => results.push(json!({"ok": s})),
+                Err(e) => results.push(json!({"err": e})),
+            }
+        }
+        drop(vm);
+        json!({"results": results})
+    })
+}
